@@ -89,9 +89,11 @@ Definition raise_tainted (r : raise_site) : bool :=
   existsb (tainted_wrt (rs_file r) T) (rs_names r).
 
 (** the decision procedures the theorems lift *)
-Definition info_sites_clean : bool :=
-  forallb (fun s => Z.ltb (ls_level s) INFO || negb (site_tainted s)) log_sites.
-Definition raise_sites_clean : bool := forallb (fun r => negb (raise_tainted r)) raise_sites.
+Definition site_ok (s : log_site) : bool := Z.ltb (ls_level s) INFO || negb (site_tainted s).
+Definition raise_ok (r : raise_site) : bool := negb (raise_tainted r).
+Definition debug_if_tainted (s : log_site) : bool := negb (site_tainted s) || Z.eqb (ls_level s) DEBUG.
+Definition info_sites_clean : bool := forallb site_ok log_sites.
+Definition raise_sites_clean : bool := forallb raise_ok raise_sites.
 
 (** identification of a site independent of line numbers *)
 Definition site_key (s : log_site) : string * string * list string := (ls_file s, ls_func s, ls_names s).
